@@ -27,7 +27,8 @@ ITEMS = ["MAX_MSG_QUEUE_SIZE", "msg_queue_resume_size", "parser_queue_full", "pr
          "ErrInfo append shape", "handle_error output_size shape", "parser constructed with the cap",
          "HTTPException branch output_size shape", "StreamResponse._start resets the writer when _prepare_headers raises",
          "_settle_declined_upgrade called from finish_response and from start after the payload check",
-         "data_received closing guard queues nothing"]
+         "data_received closing guard queues nothing",
+         "finish_response refuses a response object other than the started one; _write_headers records the started one"]
 
 WP = "aiohttp/web_protocol.py"
 HP = "aiohttp/http_parser.py"
@@ -254,6 +255,25 @@ def generate() -> str:
     acc = _one(acc, "start: payload.set_exception(_PAYLOAD_ACCESS_ERROR)")
     if not c_st.lineno > acc.lineno:
         raise TranslatorError("start: _settle_declined_upgrade() must run after the payload check")
+
+    # 2a9b996: finish_response() refuses (ConnectionError) a response object other than the one already started for this
+    # request, before it prepares it; StreamResponse._write_headers records the started object
+    guard_at = prep_at = None
+    for i, st2 in enumerate(fr.body):
+        if (isinstance(st2, ast.If) and ast.unparse(st2.test) == "started is not None and started is not resp" and len(st2.body) == 1
+                and isinstance(st2.body[0], ast.Raise) and isinstance(st2.body[0].exc, ast.Call)
+                and isinstance(st2.body[0].exc.func, ast.Name) and st2.body[0].exc.func.id == "ConnectionError" and not st2.orelse):
+            guard_at = i
+        if prep_at is None and isinstance(st2, ast.Try) and any("prepare_meth(request)" in ast.unparse(x) for x in st2.body):
+            prep_at = i
+    src_ok = any(isinstance(st2, ast.Assign) and ast.unparse(st2) == "started = request._started_response" for st2 in fr.body)
+    if guard_at is None or prep_at is None or not guard_at < prep_at or not src_ok:
+        raise TranslatorError("finish_response: `started = request._started_response; if started is not None and started is not "
+                              "resp: raise ConnectionError(...)` must precede `await prepare_meth(request)`")
+    wh = core.find_function("aiohttp/web_response.py", "_write_headers", cls="StreamResponse")
+    lines2 = [ast.unparse(x) for x in wh.body]
+    if "request._started_response = self" not in lines2 or not any("write_headers" in l for l in lines2[:lines2.index("request._started_response = self")]):
+        raise TranslatorError("StreamResponse._write_headers: `request._started_response = self` after writer.write_headers(...) not found")
 
     # handle_error: if request.writer.output_size > 0: raise ConnectionError(...)
     he = core.find_function(WP, "handle_error", cls="RequestHandler")
